@@ -26,6 +26,13 @@ CHECKS.update({
             "DESIGN.md §4 C18"),
 })
 
+CHECKS.update({
+    "C11": ("codec", "differential runtime monitor: h3 encode_stateless/decode_stateless vs an independent RFC 9204 decoder/encoder (three-valued MUST_ACCEPT/MUST_REJECT/DONT_CARE verdict); complete enumeration of 2-byte prefixes and short bodies, grammar-directed mutations",
+            "Every section h3 emits is decoded by the reference and must give the input list; every byte string fed to h3's decoder is judged by the reference. Complete over all 65536 prefixes and bodies <= 2 B (quick) / <= 3 B (thorough); mutations and random strings sampled. Held-on-observed.",
+            "Trusts refimpl/qpack.rs, its static table transcription (cross-checked against h3's by the run itself) and octets' Huffman decoder; RIC 0 with positive Base and >62-bit integers are don't-care; two known findings inherited from the Huffman decoder.",
+            "DESIGN.md §4 C11"),
+})
+
 NOT_YET = {}
 
 def main():
